@@ -439,7 +439,9 @@ func c16JoinSQL(c Case, arity int, sel, tail string) string {
 func c16SQL(c Case, arity int) [][][]string {
 	s := streamsql.New(presetOpt(), streamsql.WithDiscardLog())
 	defer s.Stop()
-	sql := c16JoinSQL(c, arity, "id, m.pid AS pid", "")
+	// `note` is a stream column that only the rows with an odd id carry (value = id): in a result it is that row's own
+	// note or NULL, whatever rows were dropped or refused before (the by-construction check below)
+	sql := c16JoinSQL(c, arity, "id, note, m.pid AS pid", "")
 	if err := s.Execute(sql); err != nil {
 		return [][][]string{{{"exec-error", hx(err.Error())}}}
 	}
@@ -492,6 +494,9 @@ func c16SQL(c Case, arity int) [][][]string {
 			if c04CfgVal(c, "nestkey", "0") == "1" {
 				c16NestKeys(row, arity)
 			}
+			if id%2 == 1 {
+				row["note"] = id
+			}
 			res, err := s.EmitSync(row)
 			switch {
 			case err != nil:
@@ -503,7 +508,11 @@ func c16SQL(c Case, arity int) [][][]string {
 				if v, ok := res["pid"]; ok && v != nil {
 					pid = fmt.Sprint(v)
 				}
-				out = append(out, [][]string{{"out", fmt.Sprint(res["id"]), pid}})
+				line := []string{"out", fmt.Sprint(res["id"]), pid}
+				if note := res["note"]; (id%2 == 1 && fmt.Sprint(note) != strconv.Itoa(id)) || (id%2 == 0 && note != nil) {
+					line = append(line, "note-of-another-row", fmt.Sprint(note))
+				}
+				out = append(out, [][]string{line})
 			}
 		default:
 			out = append(out, [][]string{{"bad-op"}})
